@@ -3,3 +3,6 @@ import Dhcp.Go.Lexer
 import Dhcp.V4.Packet
 import Dhcp.V4.Domain
 import Dhcp.Spec.Wire4
+import Dhcp.Label
+import Dhcp.V6.Types
+import Dhcp.V6.Codec
